@@ -86,20 +86,15 @@ Definition tlv_unpack (data : bytes) : res tlv :=
   if len data <? 2 then Err ETooShort else
   do d0 <- py_get data 0;
   do ty <- tlv_type_of_int d0;
-  do value <-
-     (if len data >? 2 then
-        do length <- py_get data 1;
-        if 2 + length >? len data then Err ETooShort
-        else Ok (slice data 2 (2 + length))
-      else Ok []);
-  tlv_new ty value.
+  do length <- py_get data 1;
+  if 2 + length >? len data then Err ETooShort else
+  tlv_new ty (slice data 2 (2 + length)).
 
 (* AbstractTlvBase.__eq__ (both operands TLV objects) *)
 Definition tlv_eqb (a b : tlv) : bool :=
   (tlv_type a =? tlv_type b) && bytes_eqb (tlv_value a) (tlv_value b).
 
-(* AbstractTlvBase.check_type, as called by the concrete classes: self.tlv_type is the
-   class constant there, and the argument is the same class constant. *)
+(* AbstractTlvBase.check_type *)
 Definition check_type (self_tlv_type arg : Z) : res unit :=
   if negb (self_tlv_type =? arg) then Err ETlvMismatch else Ok tt.
 
@@ -110,19 +105,13 @@ Definition wrap_new (cls_type : Z) (value : bytes) : res tlv := tlv_new cls_type
 Definition wrap_from_tlv (cls_type : Z) (t : tlv) : res tlv :=
   if negb (tlv_type t =? cls_type) then Err ETlvMismatch else Ok t.
 
-(* EntityIdTlv.unpack / MessageToUserTlv.unpack: CfdpTlv.unpack + check_type *)
-Definition entity_unpack (data : bytes) : res tlv :=
+(* <Class>.unpack: CfdpTlv.unpack, then `tlv.tlv_type != cls.TLV_TYPE` -> TlvTypeMissmatch *)
+Definition wrap_unpack (cls_type : Z) (data : bytes) : res tlv :=
   do t <- tlv_unpack data;
-  do _ <- check_type TLV_ENTITY_ID TLV_ENTITY_ID;
-  Ok t.
-Definition msg_unpack (data : bytes) : res tlv :=
-  do t <- tlv_unpack data;
-  do _ <- check_type TLV_MESSAGE_TO_USER TLV_MESSAGE_TO_USER;
-  Ok t.
-(* FlowLabelTlv.unpack compares the decoded type *)
-Definition flow_unpack (data : bytes) : res tlv :=
-  do t <- tlv_unpack data;
-  if negb (tlv_type t =? TLV_FLOW_LABEL) then Err ETlvMismatch else Ok t.
+  if negb (tlv_type t =? cls_type) then Err ETlvMismatch else Ok t.
+Definition entity_unpack := wrap_unpack TLV_ENTITY_ID.
+Definition msg_unpack := wrap_unpack TLV_MESSAGE_TO_USER.
+Definition flow_unpack := wrap_unpack TLV_FLOW_LABEL.
 
 Definition entity_new := wrap_new TLV_ENTITY_ID.
 Definition flow_new := wrap_new TLV_FLOW_LABEL.
@@ -153,12 +142,14 @@ Definition fault_new (cc hc : Z) : res fault_tlv :=
 
 Definition fault_unpack (data : bytes) : res fault_tlv :=
   do t <- tlv_unpack data;
-  do _ <- check_type TLV_FAULT_HANDLER TLV_FAULT_HANDLER;
+  if negb (tlv_type t =? TLV_FAULT_HANDLER) then Err ETlvMismatch else
+  if len (tlv_value t) <? 1 then Err ETooShort else
   do v0 <- py_get (tlv_value t) 0;
   Ok {| fh_cc := Z.shiftr (Z.land v0 240) 4; fh_hc := Z.land v0 15; fh_tlv := t |}.
 
 Definition fault_from_tlv (t : tlv) : res fault_tlv :=
   if negb (tlv_type t =? TLV_FAULT_HANDLER) then Err ETlvMismatch else
+  if len (tlv_value t) <? 1 then Err ETooShort else
   do v0 <- py_get (tlv_value t) 0;
   Ok {| fh_cc := Z.land (Z.shiftr v0 4) 15; fh_hc := Z.land v0 15; fh_tlv := t |}.
 
@@ -171,16 +162,18 @@ Definition common_packer (action status : Z) (first second : bytes) : res bytes 
     do l2 <- lv_new second; Ok (v ++ lv_pack l2)
   else Ok v.
 
-(* len(str) counts characters *)
+(* len(name.encode()) *)
 Definition common_packet_len (action : Z) (first second : bytes) : Z :=
-  3 + utf8_chars first + 1 + (if is_two_name action then utf8_chars second + 1 else 0).
+  3 + len first + 1 + (if is_two_name action then len second + 1 else 0).
 
+(* _check_raw_tlv_field (static helper, no longer used by unpack) *)
 Definition check_raw_tlv_field (first_byte expected : Z) : res unit :=
   do t <- tlv_type_of_int first_byte;
   if negb (t =? expected) then Err ETlvMismatch else Ok tt.
 
 (* (action code, first name, status nibble, index after the names, second name) *)
 Definition common_unpacker (raw : bytes) : res (Z * bytes * Z * Z * option bytes) :=
+  if len raw <? 1 then Err ETooShort else
   do r0 <- py_get raw 0;
   do action <- fs_action_of_int (Z.land (Z.shiftr r0 4) 15);
   let status := Z.land r0 15 in
@@ -210,14 +203,12 @@ Definition fsreq_set_fields (raw : bytes) : res fsreq :=
   Ok {| fq_action := a; fq_first := n1;
         fq_second := match n2 with Some s => s | None => [] end |}.
 
-Definition fsreq_unpack (data : bytes) : res fsreq :=
-  do d0 <- py_get data 0;
-  do _ <- check_raw_tlv_field d0 TLV_FILESTORE_REQUEST;
-  fsreq_set_fields (slice_from data 2).
-
 Definition fsreq_from_tlv (t : tlv) : res fsreq :=
   if negb (tlv_type t =? TLV_FILESTORE_REQUEST) then Err ETlvMismatch
   else fsreq_set_fields (tlv_value t).
+
+Definition fsreq_unpack (data : bytes) : res fsreq :=
+  do t <- tlv_unpack data; fsreq_from_tlv t.
 
 (* ---- FileStoreResponseTlv ---- *)
 Record fsresp := { fp_action : Z; fp_status : Z; fp_first : bytes; fp_second : bytes;
@@ -240,14 +231,12 @@ Definition fsresp_set_fields (data : bytes) : res fsresp :=
   Ok {| fp_action := a; fp_status := sc; fp_first := n1;
         fp_second := match n2 with Some s => s | None => [] end; fp_msg := m |}.
 
-Definition fsresp_unpack (data : bytes) : res fsresp :=
-  do d0 <- py_get data 0;
-  do _ <- check_raw_tlv_field d0 TLV_FILESTORE_RESPONSE;
-  fsresp_set_fields (slice_from data 2).
-
 Definition fsresp_from_tlv (t : tlv) : res fsresp :=
   if negb (tlv_type t =? TLV_FILESTORE_RESPONSE) then Err ETlvMismatch
   else fsresp_set_fields (tlv_value t).
+
+Definition fsresp_unpack (data : bytes) : res fsresp :=
+  do t <- tlv_unpack data; fsresp_from_tlv t.
 
 (* ---- holder.py : TlvHolder ---- *)
 Inductive any_tlv :=
